@@ -280,11 +280,13 @@ def rule_support_default(repo: Repo) -> List[Ob]:
             if m is None:
                 continue
             selfn = m.params()[0]
-            adds = [x for x in walk_no_nested(m.node) if isinstance(x, ast.Call) and call_name(x) == "add" and x.args and is_self_attr(x.args[0], "default", selfn)]
+            from ..shape import expanded
+            mx = expanded(repo, m)        # the guarded `add(self.default)` may sit in a helper of the class
+            adds = [x for x in walk_no_nested(mx) if isinstance(x, ast.Call) and call_name(x) == "add" and x.args and is_self_attr(x.args[0], "default", selfn)]
             if cls.name == "FunctionalAssignment" and mname == "get_support":
                 # returns the range of the function as an interval: the typer refuses intervals, nothing to add
-                rets = [r.value for r in walk_no_nested(m.node) if isinstance(r, ast.Return)]
-                fdefs = Defs(m.node, selfn)
+                rets = [r.value for r in walk_no_nested(mx) if isinstance(r, ast.Return)]
+                fdefs = Defs(mx, selfn)
 
                 def elem_kinds(e, depth=0) -> List[Optional[bool]]:
                     """True: a (lower, upper) tuple; False: a plain value; None: unknown"""
@@ -330,7 +332,7 @@ def rule_support_default(repo: Repo) -> List[Ob]:
                               f"{cls.name}.{mname} never adds the default variable: a conditioned assignment may keep its old value"))
                 n += 1
                 continue
-            c = cfg_of(m.node)
+            c = cfg_of(mx)
             sink = node_for(c, adds[0])
             tests = controlling_tests(c, sink)
             if mname == "get_support":
@@ -557,11 +559,16 @@ def rule_float_conversion(repo: Repo) -> List[Ob]:
     for rp, qn, sinks, _ in sites:
         f = repo.function(rp, qn)
         selfn = f.params()[0]
-        defs = Defs(f.node, selfn)
-        convs = _calls(f.node, "float_to_rational")
+        from ..shape import expanded
+        fx = expanded(repo, f)           # conversion loops moved into helpers of the class are read in place
+
+        def node_of(g_):
+            return fx if g_ is f else g_.node
+        defs = Defs(fx, selfn)
+        convs = _calls(fx, "float_to_rational")
         for sk in sinks:
             if sk == "set_parameters":
-                calls = [c for c in walk_no_nested(f.node) if isinstance(c, ast.Call) and call_name(c) == "set_parameters"]
+                calls = [c for c in walk_no_nested(fx) if isinstance(c, ast.Call) and call_name(c) == "set_parameters"]
                 if not calls:
                     raise AnalysisError(f"{qn}: set_parameters call not found")
                 r = set()
@@ -589,9 +596,9 @@ def rule_float_conversion(repo: Repo) -> List[Ob]:
             modes = []     # "deep" (all float atoms), "coefficients" (every coefficient of the expanded polynomial), "whole" (only a value that is a float as a whole)
             unguarded = False
             for g in route:
-                gdefs = Defs(g.node, g.params()[0] if g.params() and g.cls is not None else None)
-                gc = cfg_of(g.node)
-                for cv in _calls(g.node, "float_to_rational"):
+                gdefs = Defs(node_of(g), g.params()[0] if g.params() and g.cls is not None else None)
+                gc = cfg_of(node_of(g))
+                for cv in _calls(node_of(g), "float_to_rational"):
                     if g is f and not any(x.endswith("float_to_rational") for x in r if x.startswith("call:")):
                         continue
                     arg = cv.args[0] if cv.args else None
@@ -607,8 +614,8 @@ def rule_float_conversion(repo: Repo) -> List[Ob]:
                         # the converted value is a parameter of a helper: what do the callers on the route pass?
                         pos = g.params().index(arg.id) - (1 if g.cls is not None and "staticmethod" not in [src(d0) for d0 in g.node.decorator_list] else 0)
                         for caller in route:
-                            cdefs = Defs(caller.node, caller.params()[0] if caller.params() and caller.cls is not None else None)
-                            for cc in _calls(caller.node, g.name):
+                            cdefs = Defs(node_of(caller), caller.params()[0] if caller.params() and caller.cls is not None else None)
+                            for cc in _calls(node_of(caller), g.name):
                                 a = cc.args[pos] if 0 <= pos < len(cc.args) else next((kw.value for kw in cc.keywords if kw.arg == arg.id), None)
                                 if a is not None:
                                     rts |= cdefs.roots(a)
@@ -1148,20 +1155,50 @@ def rule_typer_fixpoint(repo: Repo) -> List[Ob]:
     inf = cls.methods.get("infer_types")
     c = cfg_of(inf.node)
     rets = [r for r in walk_no_nested(inf.node) if isinstance(r, ast.Return)]
-    whiles = [t for t in c.nodes if t.kind == "test" and t.label == "while" and "_fixedpoint_reached" in src(t.ast)]
+    from .discipline import _canonical_quantifier
+
+    def still_changing(e) -> Optional[bool]:
+        """True: the test says `some variable changed in the last pass`; False: it says `no variable changed`; None: not a fixed-point test.
+        Both spellings: a call of a helper named *fix(ed)point*, or the quantifier over has_changed itself (the helper inlined)."""
+        neg = False
+        while isinstance(e, ast.UnaryOp) and isinstance(e.op, ast.Not):
+            e, neg = e.operand, not neg
+        if isinstance(e, ast.Call) and re.search(r"fix(ed)?_?point", call_name(e) or ""):
+            return neg
+        if isinstance(e, ast.Call):
+            cq = _canonical_quantifier(e)
+            if cq is not None and "has_changed" in cq[1]:
+                # _canonical_quantifier folds the enclosing `not` itself
+                return {"any": True, "none": False}.get(cq[0])
+        return None
+    whiles = [t for t in c.nodes if t.kind == "test" and t.label == "while" and isinstance(t.ast, ast.expr) and still_changing(t.ast) is not None]
     ok = bool(rets) and bool(whiles)
     if ok:
         w = whiles[-1]
-        neg = isinstance(w.ast, ast.UnaryOp) and isinstance(w.ast.op, ast.Not)
         rn = node_for(c, rets[-1])
-        ok = neg and c.dominates(w, rn) and not any(isinstance(x, ast.Break) for x in ast.walk(w.stmt))
-    obs.append(Ob("E-typer-fixpoint", f"{rp}::FiniteFixedPointTyper.infer_types::exit", rp, inf.node.lineno, inf.qualname, ok,
-                  "types are extracted only after `while not fixedpoint_reached` has exited normally" if ok else "types can be extracted before the fixed point is reached"))
-    fr = cls.methods.get("_fixedpoint_reached")
-    s = src(fr.node) if fr else ""
-    ok = "all(" in s and "not s.has_changed" in s.replace("status", "s") or "not any(" in s
-    obs.append(Ob("E-typer-fixpoint", f"{rp}::FiniteFixedPointTyper._fixedpoint_reached::all", rp, fr.node.lineno if fr else 0, "FiniteFixedPointTyper._fixedpoint_reached", ok,
-                  "the fixed point is reached only when no variable changed in the last pass" if ok else "fixed-point test is not `all(not s.has_changed ...)`"))
+        ok = still_changing(w.ast) is True and c.dominates(w, rn) and not any(isinstance(x, ast.Break) for x in ast.walk(w.stmt))
+    if not whiles:
+        obs.append(inconclusive("E-typer-fixpoint", f"{rp}::FiniteFixedPointTyper.infer_types::exit", rp, inf.node.lineno, inf.qualname, "loop `while not fixed point reached` not recognised"))
+    else:
+        obs.append(Ob("E-typer-fixpoint", f"{rp}::FiniteFixedPointTyper.infer_types::exit", rp, inf.node.lineno, inf.qualname, ok,
+                      "types are extracted only after `while not fixedpoint_reached` has exited normally" if ok else "types can be extracted before the fixed point is reached"))
+    # the fixed-point test itself: NO variable changed (all(not changed) / not any(changed)); used negated it reads `any changed`
+    quants = []
+    for m in cls.all_methods:
+        for x in walk_no_nested(m.node):
+            if isinstance(x, ast.Call):
+                cq = _canonical_quantifier(x)
+                if cq is not None and "has_changed" in cq[1]:
+                    quants.append((m, x, cq[0]))
+    keyq = f"{rp}::FiniteFixedPointTyper._fixedpoint_reached::all"
+    if not quants:
+        obs.append(inconclusive("E-typer-fixpoint", keyq, rp, cls.node.lineno, "FiniteFixedPointTyper", "fixed-point test over has_changed not written with any()/all()"))
+    else:
+        badq = [(m, x, q) for m, x, q in quants if q in ("all", "notall")]
+        m0, x0, q0 = (badq or quants)[0]
+        obs.append(Ob("E-typer-fixpoint", keyq, rp, x0.lineno, m0.qualname, not badq,
+                      "the fixed point is reached only when no variable changed in the last pass" if not badq else
+                      f"`{src(x0)[:60]}`: the fixed-point test holds as soon as ONE variable is unchanged (it must be: no variable changed)"))
     return obs
 
 
